@@ -43,7 +43,7 @@ CHOICES = {
     "order": ["grouped", "shuffled", "reversed"],
     "conv": ["own", "fchk", "molden", "wfn", "horton2", "cca", "random"],
     "contraction": ["segmented", "sp", "generalized"],
-    "kind": ["restricted", "rohf", "aminusb", "unrestricted"],
+    "kind": ["restricted", "rohf", "aminusb", "aminusb-zero", "unrestricted"],
     "virtuals": [True, False],
     "centres": ["plain", "ghost", "ecp"],
     "purecart": ["c", "p", "mixed"],
@@ -134,12 +134,16 @@ def make_case(case_seed, fmt, feat):
         n = norb or nocc
         occs = np.array([2.0] * nocc + [0.0] * (n - nocc))
         mo = MolecularOrbitals("restricted", n, n, occs, c[:, :n], ergs[:n])
-    elif kind in ("rohf", "aminusb"):
+    elif kind in ("rohf", "aminusb", "aminusb-zero"):
         nsingle = 1 if nocc < nb else 0
+        if kind == "aminusb-zero" and nocc + 2 <= nb:
+            nsingle = 2  # two half-filled orbitals (half an alpha and half a beta electron each): no spin polarisation
         n = norb or min(nocc + nsingle, nb)
         occs = np.array(([2.0] * nocc + [1.0] * nsingle + [0.0] * nb)[:n])
         if kind == "rohf":
             mo = MolecularOrbitals("restricted", n, n, occs, c[:, :n], ergs[:n])
+        elif kind == "aminusb-zero":
+            mo = MolecularOrbitals("restricted", n, n, occs, c[:, :n], ergs[:n], occs_aminusb=np.zeros(n))
         else:
             amb = np.array(([0.0] * nocc + [1.0] * nsingle + [0.0] * nb)[:n])
             mo = MolecularOrbitals("restricted", n, n, occs, c[:, :n], ergs[:n], occs_aminusb=amb)
